@@ -4,7 +4,7 @@
    correspondence (vharness `ed` vs the extracted model). *)
 From Coq Require Import NArith List Bool Arith.
 From LC Require Import Base.Lib Gen.Editor_gen Model.Composition Model.Conversion Model.Editor Model.EditorRun Model.EdInst
-     Proofs.CompositionProofs Proofs.EditorInv Proofs.EditorFrames Proofs.EdInstProofs.
+     Proofs.CompositionProofs Proofs.EditorInv Proofs.EditorFrames Proofs.EdInstProofs Proofs.StackInv.
 From Coq Require Import ZArith.
 From LC Require Import Gen.Keyboard_gen Model.CapiKeys Model.CapiConfig Model.CapiRun Proofs.CapiKeysProofs Proofs.CapiInv Proofs.EngineTiles.
 Import ListNotations.
@@ -122,6 +122,41 @@ Example C05_nonvacuous :
   (forall d f, md_ok d -> do_lookup md_ops d f [] = []) /\
   md_ok (mkMD [([2560%N], [20007%N], 2004%N, 0%N)] [] []).
 Proof. split; [exact md_ok_lookup | split; repeat constructor; discriminate]. Qed.
+
+(* ---- the saved cursors never leak (Proofs/StackInv.v) ----
+   CompositionEditor keeps a stack of saved cursors: one is pushed when a phrase / special-symbol list opens and
+   popped when a list closes; the symbol table's list (backquote, Ctrl-0 / Ctrl-1) does not push but pops.  After
+   EVERY history of key events and public operations from a fresh editor: outside the Selecting state the stack is
+   empty, under a list that inserts (the symbol table) it is empty, under a list that replaces it holds at most one
+   cursor.  A leaked cursor would be restored by the next unmatched pop and the cursor would jump (the pinned reset
+   defect of C17, seeded changes C01-A, C05-B, C05-D, C17-D). *)
+Theorem C05_saved_cursors_never_leak : forall D SY (dops : dict_ops D) (sops : syl_ops SY) conv d s0 ab ss t0 ops (e' : editor D SY),
+  run dops sops conv (init_editor d s0 ab ss t0) ops = Ok e' ->
+  match st e' with
+  | Selecting _ false _ => length (cursor_stack (com (sh e'))) <= 1
+  | _ => cursor_stack (com (sh e')) = []
+  end.
+Proof.
+  intros D SY dops sops conv d s0 ab ss t0 ops e' H.
+  exact (run_SI dops sops conv ops _ e' (init_SI d s0 ab ss t0) H).
+Qed.
+Print Assumptions C05_saved_cursors_never_leak.
+
+(* hence: a symbol chosen from the symbol table lands exactly at the cursor and the cursor ends right after it - in
+   every state a history can reach *)
+Theorem C05_symbol_table_choice_lands_at_the_cursor : forall D SY (dops : dict_ops D) (sops : syl_ops SY) conv d s0 ab ss t0 ops
+    (e : editor D SY) pg y n s' pg' sel',
+  run dops sops conv (init_editor d s0 ab ss t0) ops = Ok e -> wf_ce (com (sh e)) ->
+  st e = Selecting pg true (SelSymbol y) ->
+  selecting_select_offset dops sops (sh e) pg true (SelSymbol y) n = Ok (s', ToState Entering, pg', sel') ->
+  exists sym, symbols (inner (com s')) = insert_at (cursor (com (sh e))) sym (symbols (inner (com (sh e)))) /\
+              cursor (com s') = S (cursor (com (sh e))).
+Proof.
+  intros D SY dops sops conv d s0 ab ss t0 ops e pg y n s' pg' sel' Hrun W Hst H.
+  eapply (symbol_table_choice_at_cursor dops sops); [|exact W | exact Hst | exact H | reflexivity].
+  exact (run_SI dops sops conv ops _ e (init_SI d s0 ab ss t0) Hrun).
+Qed.
+Print Assumptions C05_symbol_table_choice_lands_at_the_cursor.
 
 (* ---- through the C API (Model/CapiKeys.v, CapiConfig.v, CapiRun.v: the key-entry, candidate, configuration and
    user-phrase calls over the editor with all layouts and the modelled engines, system dictionary = a trie file) ----
